@@ -73,6 +73,8 @@ def start_scripts():
         # one running job, update 2 fully submitted but not committed
         'single+u2_indep': single + [('new_update', 'u1', 't2', 1, 0), ('add_jobs', 'u1', 2, [J(1, abs_group=0)])],
         'single+u2_child': single + [('new_update', 'u1', 't2', 1, 0), ('add_jobs', 'u1', 2, [J(1, abs_parents=[1], abs_group=0)])],
+        # update 2 carries no job, only a job group
+        'single+u2_groups_only': single + [('new_update', 'u1', 't2', 0, 1), ('add_groups', 'u1', 2, [G(1, parent_abs=0)])],
         'pair_one_done+u2_child': pair_run + [('complete', 2, 'a2', 'i2', 'Success', 10, 20),
                                              ('new_update', 'u1', 't2', 1, 0), ('add_jobs', 'u1', 2, [J(1, abs_parents=[1, 2], abs_group=1)])],
         'nested_running': nested_run,
@@ -101,6 +103,8 @@ PAIRS = [
      [('complete', 1, 'a1', 'i1', 'Success'), ('commit', 2)]),
     ('complete_failed_last_job||commit_u2', ['single+u2_child'],
      [('complete', 1, 'a1', 'i1', 'Failed'), ('commit', 2)]),
+    ('complete_last_job||commit_u2(job groups only)', ['single+u2_groups_only'],
+     [('complete', 1, 'a1', 'i1', 'Success'), ('commit', 2)]),
     ('complete_A||complete_B(shared child, nested groups)', ['nested_running', 'nested_running+u2_in_groups'],
      [('complete', 1, 'a1', 'i1', 'Success'), ('complete', 2, 'a2', 'i2', 'Success')]),
     ('complete_A||complete_B_failed(shared child)', ['nested_running'],
@@ -141,9 +145,9 @@ TRIPLES = [
      [('complete', 1, 'a1', 'i1', 'Success'), ('commit', 2), ('commit', 2)], None),
 ]
 
-QUICK = [   # ~780 executions, the longest item ~310 (cancel || complete, ~630 each, is left to the thorough tier)
+QUICK = [   # ~575 executions, the longest item ~160; cancel || complete / commit / create_jobs (300-650 each) are thorough-tier only
     ('complete_last_job||commit_u2', 'single+u2_indep'),
-    ('cancel_g1||commit_u2(jobs in g1, g2)', 'nested_ready+u2_in_groups'),
+    ('complete_last_job||commit_u2(job groups only)', 'single+u2_groups_only'),
     ('schedule||cancel_g1', 'nested_ready'),
     ('commit_u2||commit_u2(retry)', 'single+u2_child'),
     ('complete_A||complete_A(duplicate report)', 'pair_running'),
@@ -629,8 +633,9 @@ def extra_phase(tier, procs, monitors=('C01', 'C06', 'C41')):
 
     gc.collect()
     gc.freeze()   # forked workers must not copy the parent's heap page by page when their collector runs
-    # every forked worker first copies the pages it touches (~2 s of page faults under load): few workers for the quick subset
-    nproc = max(1, min(procs, len(items), 3 if tier == 'quick' else procs))
+    # every forked worker first copies the pages it touches (seconds of page faults on a busy machine, more than the
+    # whole quick subset costs): the quick subset runs in this process
+    nproc = 1 if tier == 'quick' else max(1, min(procs, len(items)))
     try:
         results = par.pmap(explore_item, items, procs=nproc, chunksize=1)
     finally:
